@@ -176,14 +176,24 @@ def boundary_geometry(rng, nif=None):
     return dict(interfaces=ifs, interior=interior, vels=vels, family="boundary")
 
 
+_AGAINST = arim.Material(longitudinal_vel=1480.0, density=1000.0, state_of_matter="liquid")
+
+
 def build(geom):
     """real arim objects of a geometry description"""
     interfaces = []
     for f in geom["interfaces"]:
         pts = g.Points(np.array(f["points"], float).reshape(-1, 3).copy())
         ori = g.Points(np.array(f["frames"], float).reshape(-1, 3, 3).copy())
+        # the declared role of the interface (none / transmission / reflection against a material) does not enter the
+        # geometry: it is drawn at random so that role-dependent shortcuts (e.g. in Interface.reverse) are exercised
+        role = f.get("role")
+        if role is None:
+            role = f["role"] = int(rng.integers(0, 3))
+        kw = [dict(), dict(kind="fluid_solid", transmission_reflection="transmission"),
+              dict(kind="solid_fluid", transmission_reflection="reflection", reflection_against=_AGAINST)][role]
         interfaces.append(arim.Interface(pts, ori, are_normals_on_inc_rays_side=f["inc"],
-                                         are_normals_on_out_rays_side=f["out"]))
+                                         are_normals_on_out_rays_side=f["out"], **kw))
     mats = [arim.Material(longitudinal_vel=float(v)) for v in geom["vels"]]
     path = arim.Path(tuple(interfaces), tuple(mats), tuple(["L"] * len(mats)))
     interior = np.array(geom["interior"], dtype=arim.settings.INT).reshape(
@@ -287,7 +297,9 @@ def geom_replay(geom):
     return dict(family=geom.get("family"), vels=[float(v) for v in geom["vels"]],
                 interior=np.asarray(geom["interior"]).tolist(),
                 interfaces=[dict(points=np.asarray(f["points"]).tolist(), frames=np.asarray(f["frames"]).tolist(),
-                                 inc=f["inc"], out=f["out"]) for f in geom["interfaces"]])
+                                 inc=f["inc"], out=f["out"],
+                                 role=["none", "transmission fluid_solid", "reflection solid_fluid against a liquid"][f.get("role") or 0])
+                            for f in geom["interfaces"]])
 
 
 # ---------------------------------------------------------------------------
